@@ -326,6 +326,9 @@ def run_case(case):
                 add("sample:rejected-consistent-sample", "a sample was rejected although its choices %r do not contradict the evidence (%r)" % (
                     sorted(assign.items(), key=repr), ev))
         else:
+            if any(got is None for got in ev):
+                flags.add("evidence-undetermined-rejected")
+                COUNTERS["rejected_with_undetermined_evidence"] += 1
             # with propagation a sample may only be rejected when the evidence cannot hold any more
             if all(got is not None and got == want for (ea, want), got in zip(C.eatoms, ev)) and C.eatoms:
                 add("sample:rejected-consistent-sample|propagate" + evcyc, "a sample was rejected although its choices %r satisfy the evidence" % (
@@ -417,8 +420,9 @@ def run_case(case):
     nq = max(1, len(R.probs))
     eps = math.sqrt(math.log(2.0 * nq / DELTA) / (2.0 * max(accepted, 1)))
     suffix = ""
-    if prop and ("evidence-undetermined-accepted" in flags or "ad-head-forced" in flags):
-        suffix = "|propagate:" + "+".join(sorted(f for f in flags if f in ("evidence-undetermined-accepted", "ad-head-forced")))
+    PFLAGS = ("evidence-undetermined-accepted", "evidence-undetermined-rejected", "ad-head-forced")
+    if prop and any(f in flags for f in PFLAGS):
+        suffix = "|propagate:" + "+".join(sorted(f for f in flags if f in PFLAGS))
     elif prop:
         suffix = "|propagate"
     suffix += evcyc
